@@ -135,3 +135,47 @@ def register_all(prop):
                "and bandwidth literals round-trip; templates render to the independently computed expansion. non-trivial = >= 3 (formats) / >= 5 (msg) set "
                "fields, an unknown key at depth >= 2, or >= 5 flags."),
          assumptions=["free-form maps (metadatas, annotations, header sets) accept any key, so no unknown-key case exists inside them"])
+    prop("C19", qshards=8, tshards=16, qlimit=480, tlimit=3600,
+         rule=("reload_convergence: a real in-process frpc (wrapper timing constants shortened through the hook: status check 30 ms, wait-response 400 ms, "
+               "start-error back-off 300 ms) against a scripted server; 2..7 steps of reloads (each a set over 4 proxy names x 3 variants, reordered, with "
+               "identical duplicates, plus 0..2 stcp visitors) and waits of 0..450 ms relative to outstanding replies; per proxy a script of server replies "
+               "{success, error, late, never}. Oracle over the server's event log: final registrations == last configuration (names and content); an "
+               "unchanged running proxy sees neither CloseProxy nor NewProxy across a reload; removed/changed entries are closed; a refused registration "
+               "is retried no sooner than the back-off and is retried; polled status only moves along legal paths; removed visitors unbind; a work "
+               "connection for a stopped proxy is closed without contacting the backend. health_gating: tcp and http health checks served by harness "
+               "endpoints that log every probe, scripts over {success, refusal, timeout, non-2xx}, maxFailed 1..4; oracle = reference counter over the "
+               "logged probes. non-trivial = >= 2 reloads of which one changes a configured proxy, or a failure run shorter than maxFailed followed by a success."),
+         assumptions=["duplicate names with different content are not generated (no defined meaning)", "health-check intervals are whole seconds in frp: those histories run in real seconds"])
+    prop("C14", qshards=8, tshards=16, qlimit=600, tlimit=3600,
+         rule=("server_watchdog: a scripted client sends valid heartbeats every 300..1100 ms for 0..5 rounds and then falls silent, sends only invalid "
+               "heartbeats (HeartBeats scope), sends only non-heartbeat traffic, or keeps pinging; heartbeatTimeout 2..3 s, tcpMux on/off. Oracle: the "
+               "control connection is closed within [T, T + 1 s + slack] of the last valid heartbeat, the name/port are re-acquirable at once, a pinging "
+               "peer survives 3T. client_watchdog_backoff: a real frpc (interval 1 s, timeout 3 s) against a scripted server that stops answering pings, "
+               "refuses or drops logins for 1.5..9 s, or cuts the control; oracle: silent session given up within timeout + slack but not early, all "
+               "proxies registered again within the back-off ceiling, login attempts never < 80 ms apart and <= 20 per 10 s. healing: real frpc + real "
+               "frps restarted on the same ports after outages of 0..4 s, 1..2 times; all tunnels carry traffic again within 28 s. non-trivial = fault "
+               "placed inside a session with registered proxies / outage longer than one back-off step."),
+         assumptions=["upper time bounds use confirm-on-retry; lower bounds do not need it", "outages are <= 9 s in the quick tier"])
+    prop("C16", qshards=8, tshards=16, qlimit=600, tlimit=3600, race=True,
+         rule=("frps_barrage: the real cmd/frps binary built from the current tree runs as a sacrificial child with a generated TOML configuration; 1..6 "
+               "concurrent scripted peers - authenticated (valid login with pool_count in {0, 1, 3, -1, -10, -11, -1000, 2^31-1, 2^63-1, 100000}) or not - "
+               "send 1..12 field-level hostile messages each over all 18 message types (hand-written JSON: extreme integers, empty / 9 KB / NUL / lone "
+               "surrogate strings, nil / empty / nested maps and lists, malformed and out-of-range addresses, wrong JSON types, raw garbage), with abrupt "
+               "disconnects, plus HTTP / TLS / CONNECT / HTTP2-preface garbage on the vhost ports, while a legitimate session holds tcp, xtcp and stcp "
+               "proxies. Oracle: the child is alive, its output has no 'panic:' / 'fatal error:' (and, under -race in the thorough tier, no DATA RACE), "
+               "the bystander still gets a Pong and its tunnel answers, a fresh login + registration works. frpc_hostile_server: the real cmd/frpc child "
+               "against a scripted server sending hostile LoginResp, NewProxyResp, NatHoleResp, Pong, StartWorkConn and floods of ReqWorkConn; oracle: alive, "
+               "no fatal output, admin API still answers. non-trivial = >= 1 authenticated peer and >= 3 messages / >= 2 hostile messages."),
+         assumptions=["race-only failures are found probabilistically", "a dead child is not shrunk structurally beyond what rapid achieves by re-running cases against fresh children"])
+    prop("C05", qshards=8, tshards=16, qlimit=600, tlimit=3600,
+         rule=("wire_confidentiality: real frpc and frps talk through a recording relay (TCP, and UDP for kcp/quic in the thorough tier); per case fresh "
+               "high-entropy markers for the auth token, an stcp secret key, an http password, a tcpmux password, the payload of both directions and "
+               "control content (proxy name, custom domain, metadata); lattice TLS on/off x custom first byte x forced TLS x proxy encryption x "
+               "compression x transport x tcpMux; payload flows through a tcp proxy and an stcp visitor. Oracle: no secret in raw / base64 / hex form "
+               "in any configuration; no payload marker when TLS or proxy encryption is on; no control content when TLS is on; negative control: with "
+               "everything off the payload marker must be visible (the observer works). identity_matrix: scripted peers against a server with forced "
+               "TLS and/or a trusted CA (TLS or not, no / CA-signed / foreign-CA / self-signed certificate, every first byte 0..255 before a plaintext "
+               "login) and a real frpc with/without trusted CA and server name against servers presenting good / foreign / self-signed / wrong-name "
+               "certificates; oracle: model of 'session comes up' vs. observed, refused peers get no LoginResp and leave no state. non-trivial = TLS or "
+               "proxy encryption on with >= 2 KB marker-bearing traffic, or an identity case whose expected outcome is refusal."),
+         assumptions=["'in clear' means the marker bytes in raw, base64 or hex form; cryptographic strength is not assessed", "compression alone is not claimed to hide anything"])
